@@ -123,27 +123,59 @@ Definition rec_facts (acc : list Z) (cols gs : list (list Z)) (r : inrec) : Prop
   forall ph, lookup_phase (phases_of acc cols) (fst (fst r)) = Some ph ->
     Permutation ph (snd (fst r)) /\ ~ In undet (snd (fst r)) /\ is_het (snd (fst r)) = true /\ snd (fst r) <> [].
 
+Lemma col_eqb_refl : forall l, col_eqb l l = true.
+Proof. unfold col_eqb. induction l as [| x t IH]; cbn [list_eqb]; [reflexivity |]. rewrite Z.eqb_refl, IH. reflexivity. Qed.
+
+Lemma insertZ_repeat : forall a n, insertZ a (repeat a n) = a :: repeat a n.
+Proof. intros a [| n]; cbn [repeat insertZ]; [reflexivity |]. rewrite Z.leb_refl. reflexivity. Qed.
+
+Lemma sortZ_hom : forall g, is_het g = false -> sortZ g = g.
+Proof.
+  intros [| a t] H; [reflexivity |]. cbn [is_het] in H. apply negb_false_iff in H. rewrite forallb_forall in H.
+  assert (Ht : t = repeat a (length t)).
+  { clear -H. induction t as [| y u IH]; [reflexivity |]. cbn [length repeat].
+    assert (Hy : y = a) by (symmetry; apply Z.eqb_eq; apply H; left; reflexivity). subst y. f_equal.
+    apply IH. intros z Hz. apply H. right. exact Hz. }
+  rewrite Ht. generalize (length t) as n. intros n. change (a :: repeat a n) with (repeat a (S n)).
+  induction (S n) as [| m IH]; [reflexivity |]. cbn [repeat sortZ fold_right]. fold (sortZ (repeat a m)). rewrite IH.
+  apply insertZ_repeat.
+Qed.
+
+Lemma fixed_gt_false : forall g, ~ In undet g -> is_het g = true -> g <> [] -> fixed_gt g = false.
+Proof.
+  intros g H1 H2 H3. unfold fixed_gt. rewrite (proj2 (memZ_false undet g) H1), H2. destruct g; [contradiction | reflexivity].
+Qed.
+
 Lemma gt_clause_ok : forall m acc cols gs r, rec_facts acc cols gs r -> gt_clause (obs_of m (phases_of acc cols) r) = true.
 Proof.
   intros m acc cols gs [[pos in_gt] in_ps] Hf. unfold rec_facts in Hf. cbn [fst snd] in Hf.
   unfold obs_of, write_call. cbn [fst snd].
   destruct (lookup_phase (phases_of acc cols) pos) as [ph |] eqn:Eph.
   - destruct (Hf ph eq_refl) as [Hperm [Hnu [Hhet Hne]]].
+    rewrite (proj2 (memZ_false undet in_gt) Hnu).
+    pose proof (fixed_gt_false in_gt Hnu Hhet Hne) as Hfx.
     set (changed := negb (col_eqb (sortZ ph) (sortZ in_gt))).
     assert (Hgt : same_mset (if changed then sortZ ph else sortZ in_gt) in_gt = true).
     { destruct changed; apply same_mset_perm; [eapply perm_trans; [apply sortZ_perm | exact Hperm] | apply sortZ_perm]. }
-    assert (Hun : forall gt ps, same_mset gt in_gt = true -> (ps = None \/ ps = in_ps) ->
-                  gt_clause (pos + 1, in_gt, in_ps, gt, false, ps) = true).
-    { intros gt ps H1 H2. unfold gt_clause, o_phased, o_out, o_in, o_ps, o_inps. cbn [fst snd]. rewrite H1. cbn [andb].
-      destruct H2 as [H2 | H2]; subst ps; [reflexivity |]. rewrite optZ_eqb_refl. apply orb_true_r. }
+    assert (Hun : forall gt, same_mset gt in_gt = true ->
+                  gt_clause (pos + 1, in_gt, in_ps, gt, false, None) = true).
+    { intros gt H1. unfold gt_clause, o_phased, o_out, o_in, o_ps, o_inps. cbn [fst snd]. rewrite Hfx, H1. reflexivity. }
     destruct (lookup m pos) as [c |].
     + destruct (is_het (if changed then ph else in_gt)).
-      * unfold gt_clause, o_phased, o_out, o_in, o_ps, o_inps. cbn [fst snd].
+      * unfold gt_clause, o_phased, o_out, o_in, o_ps, o_inps. cbn [fst snd]. rewrite Hfx.
         rewrite (proj2 (same_mset_perm ph in_gt) Hperm). rewrite (proj2 (memZ_false undet in_gt) Hnu). rewrite Hhet.
         destruct in_gt; [contradiction | reflexivity].
-      * apply Hun; [exact Hgt | left; reflexivity].
-    + apply Hun; [apply same_mset_sort_l | left; reflexivity].
-  - unfold gt_clause, o_phased, o_out, o_in, o_ps, o_inps. cbn [fst snd]. rewrite same_mset_sort_l. reflexivity.
+      * apply Hun. exact Hgt.
+    + apply Hun. apply same_mset_sort_l.
+  - unfold gt_clause, o_phased, o_out, o_in, o_ps, o_inps. cbn [fst snd].
+    destruct (fixed_gt in_gt) eqn:Efx.
+    + cbn [negb andb]. rewrite orb_true_l, andb_true_r.
+      destruct (memZ undet in_gt) eqn:Em; [apply col_eqb_refl |].
+      unfold fixed_gt in Efx. rewrite Em in Efx. cbn [orb] in Efx.
+      destruct in_gt as [| a t]; [reflexivity |]. rewrite orb_false_r in Efx. apply negb_true_iff in Efx.
+      rewrite (sortZ_hom _ Efx). apply col_eqb_refl.
+    + destruct (memZ undet in_gt); [| rewrite same_mset_sort_l; reflexivity].
+      rewrite (proj2 (same_mset_perm in_gt in_gt) (Permutation_refl _)). reflexivity.
 Qed.
 
 Lemma phased_pair_of : forall m phases r a s,
@@ -155,7 +187,7 @@ Proof.
   unfold obs_of, write_call, o_phased, o_ps, o_pos in H. cbn [fst snd] in H.
   destruct (lookup_phase phases pos) as [ph |] eqn:Eph; [| destruct H].
   destruct (lookup m pos) as [c |] eqn:Ec; [| destruct H].
-  destruct (is_het (if negb (col_eqb (sortZ ph) (sortZ in_gt)) then ph else in_gt)); cbn [fst snd] in H; [| destruct H].
+  match type of H with context [if is_het ?x then _ else _] => destruct (is_het x) end; cbn [fst snd] in H; [| destruct H].
   destruct H as [H | []]. inversion H; subst. exists ph, c. cbn [fst snd]. auto.
 Qed.
 
